@@ -214,7 +214,7 @@ func runC02TX(e *Env) {
 			}
 			// the twin: same committed state, same block, no transaction
 			T := &c06Replica{name: "twin", db: c02txCopyDB(A.db)}
-			T.app = c06NewApp(T.db)
+			T.app = c06NewApp("T", T.db)
 			T.block(r.request(height, now, nil))
 			res := A.block(r.request(height, now, [][]byte{bz}))
 			e.Stats.Evaluations++
